@@ -395,11 +395,8 @@ func damageStream(kind int, b []byte) []byte {
 		return append(append([]byte{}, b...), []byte("{\"cid\":")...)
 	case 2: // garbage in front
 		return append([]byte("not json\n"), b...)
-	case 3: // cut in the middle (garbage appended when there is nothing to cut)
-		if len(b) < 4 {
-			return append(append([]byte{}, b...), []byte("]")...)
-		}
-		return append([]byte{}, b[:len(b)/2]...)
+	case 3: // cut in the middle; an opened document follows so that a cut on a document boundary is an error too
+		return append(append([]byte{}, b[:len(b)/2]...), []byte("{")...)
 	}
 	return b
 }
